@@ -460,6 +460,7 @@ func (c17) Gen(rng *rand.Rand, tier string, i int) *sim.Scenario {
 		c := &sc.Calls[0]
 		span := c.TimeoutMs*1000 + 400000
 		c.CancelAtUs = int64(pick(crng, 1, between(crng, 1, 3000), between(crng, 1, span), between(crng, 1, span)))
+		c.PreCancelled = c.CancelAtUs == 1 && i%2 == 0
 	}
 	return sc
 }
